@@ -16,26 +16,30 @@ inline Alphabet Sigma3p() { return {{0, 1, 2}, {"a", "f", "g"}}; }         // a:
 inline Alphabet SigmaL() { return {{0, 0}, {"a", "b"}}; }
 inline Alphabet SigmaAG() { return {{0, 2}, {"a", "g"}}; }
 inline Alphabet SigmaAF() { return {{0, 1}, {"a", "f"}}; }
+inline Alphabet SigmaAFH() { return {{0, 1, 3}, {"a", "f", "h"}}; }   // a:0 f:1 h:3
+inline Alphabet SigmaAH() { return {{0, 3}, {"a", "h"}}; }
 inline Alphabet SigmaA() { return {{0}, {"a"}}; }
 
 // TA(n, Sigma, <=k): all automata over states 0..n-1 with at most k rules from the rule universe
 // and any final set.  Ordered by number of rules, then combination (lexicographic), then final mask.
 struct TADomain {
-  int n; Alphabet sig; int maxRules; bool allowNoFinal;
+  int n; Alphabet sig; int maxRules; bool allowNoFinal; bool requireLeafRule; size_t firstNonNullary = 0;
   std::vector<ref::Rule> U;
-  struct Item { uint8_t nr; uint8_t r[7]; uint8_t fin; };
+  struct Item { uint8_t nr; uint8_t fin; uint16_t r[7]; };
   std::vector<Item> items;
-  TADomain(int n_, const Alphabet& s, int k, bool allowNoFinal_ = true) : n(n_), sig(s), maxRules(k), allowNoFinal(allowNoFinal_) {
+  // requireLeafRule: only automata with at least one nullary rule (all others have an empty language); needs the nullary symbols first in Sigma
+  TADomain(int n_, const Alphabet& s, int k, bool allowNoFinal_ = true, bool requireLeafRule_ = false) : n(n_), sig(s), maxRules(k), allowNoFinal(allowNoFinal_), requireLeafRule(requireLeafRule_) {
     for (size_t sy = 0; sy < sig.ranks.size(); sy++) {
       int r = sig.ranks[sy]; std::vector<size_t> ch(r, 0);
       while (true) { for (int q = 0; q < n; q++) U.push_back({(int)sy, ch, (size_t)q}); int i = 0; while (i < r && ++ch[i] == (size_t)n) { ch[i] = 0; i++; } if (i == r) break; }
     }
-    if (U.size() > 255 || k > 7) throw std::runtime_error("TADomain too large");
+    if (U.size() > 65535 || k > 7) throw std::runtime_error("TADomain too large");
+    { bool seenPos = false; for (auto& r : U) { if (!r.ch.empty()) seenPos = true; else { if (seenPos && requireLeafRule) throw std::runtime_error("nullary symbols must come first"); firstNonNullary++; } } }
     for (int nr = 0; nr <= k; nr++) { std::vector<int> pick; gen(0, nr, pick); }
   }
   void gen(size_t from, int left, std::vector<int>& pick) {
-    if (left == 0) { for (unsigned fm = allowNoFinal ? 0 : 1; fm < (1u << n); fm++) { Item it; it.nr = (uint8_t)pick.size(); for (size_t i = 0; i < pick.size(); i++) it.r[i] = (uint8_t)pick[i]; it.fin = (uint8_t)fm; items.push_back(it); } return; }
-    for (size_t i = from; i + left <= U.size(); i++) { pick.push_back((int)i); gen(i + 1, left - 1, pick); pick.pop_back(); }
+    if (left == 0) { if (requireLeafRule && pick.empty()) return; for (unsigned fm = allowNoFinal ? 0 : 1; fm < (1u << n); fm++) { Item it; it.nr = (uint8_t)pick.size(); for (size_t i = 0; i < pick.size(); i++) it.r[i] = (uint16_t)pick[i]; it.fin = (uint8_t)fm; items.push_back(it); } return; }
+    for (size_t i = from; i + left <= U.size(); i++) { if (requireLeafRule && pick.empty() && i >= firstNonNullary) break; pick.push_back((int)i); gen(i + 1, left - 1, pick); pick.pop_back(); }
   }
   size_t size() const { return items.size(); }
   ref::TA get(size_t i) const { ref::TA A; const Item& it = items[i]; for (int k = 0; k < it.nr; k++) A.rules.insert(U[it.r[k]]); for (int q = 0; q < n; q++) if (it.fin >> q & 1) A.finals.insert(q); return A; }
